@@ -52,6 +52,7 @@ def main():
     ap.add_argument("--steps", type=int, default=150)
     ap.add_argument("--seed", type=int, default=1)
     ap.add_argument("--suffix", default="")
+    ap.add_argument("--adaptive", action="store_true", help="adaptive process scheduling (coq/C02/Gen2.v)")
     ap.add_argument("--merge", action="store_true", help="fold the scratch databases of parallel instances into the corpus file")
     a = ap.parse_args()
     global SUFFIX
@@ -107,7 +108,7 @@ def main():
                 jobs.append((parent, rnd))
             else:
                 jobs.append((None, rnd))
-        body = ["From PGV Require Import C02.Lang C02.Sem C02.Show C02.Walk %s.%s_walkdefs.\n"
+        body = ["From PGV Require Import C02.Lang C02.Sem C02.Show C02.Walk C02.Gen2 %s.%s_walkdefs.\n"
                 "From Coq Require Import NArith FSets.FSetPositive.\nOpen Scope string_scope.\nOpen Scope Z_scope.\n" % (G.GEN_NAME, a.system)]
         body.append("Definition known := Eval vm_compute in fold_right (fun k s => PositiveSet.add (pos_of_key k) s) PositiveSet.empty [%s]%%N.\n"
                     % "; ".join(str(k) for k in known))
@@ -116,7 +117,7 @@ def main():
                 body.append("Definition start%d : gstate := %s.\n" % (i, parent["state"]))
         jl = ";\n ".join("(%s, map N.to_nat [%s]%%N)" % ("Some start%d" % i if p is not None else "None",
                                                           "; ".join(str(x) for x in rnd)) for i, (p, rnd) in enumerate(jobs))
-        body.append("Definition R := Eval vm_compute in cwalks %d (%s_W %d) (all_labels (%s_W %d)) known [%s] [].\nPrint R.\n"
+        body.append("Definition R := Eval vm_compute in " + ("cwalks2" if a.adaptive else "cwalks") + " %d (%s_W %d) (all_labels (%s_W %d)) known [%s] [].\nPrint R.\n"
                     % (a.steps, a.system, cs, a.system, cs, jl))
         rc, out, err = G.coq_scratch("C02_seedgen_%s_%d" % (a.system, os.getpid()), "".join(body), timeout=3000)
         if rc != 0:
